@@ -191,6 +191,41 @@ def _value_event(via, q, real_cls, m, pin, got):
     return dict(ev='deser', via=via, ok=True, cls=name, v=a)
 
 
+class _OutOfDomain:
+    """A field value outside every wire type: any use by a serialiser raises."""
+
+    def __getattr__(self, name):
+        raise TypeError('out-of-domain value')
+
+    def __len__(self):
+        raise TypeError('out-of-domain value')
+
+    def __iter__(self):
+        raise TypeError('out-of-domain value')
+
+
+_POISON_COUNT = [0]
+
+
+def _poison(cls, q, case, pin):
+    _POISON_COUNT[0] += 1
+    if _POISON_COUNT[0] % 2:
+        return
+    try:
+        kw = L.message_kwargs(q, case['v'], pin)
+    except Exception:
+        return
+    keys = list(kw)
+    for key in ([keys[-1]] if keys else []) + ([keys[len(keys) // 2]] if len(keys) > 2 else []):
+        for bad in (_OutOfDomain(), '\ud800 lone surrogate', 1 << 70):
+            bad_kw = dict(kw)
+            bad_kw[key] = bad
+            try:
+                cls(**bad_kw).serialize()
+            except BaseException:  # noqa - whatever happens is ignored
+                pass
+
+
 def observe_message(real: Real, case: dict, prescribed: list) -> list:
     pin = real.pin
     q = case['cls']
@@ -210,6 +245,10 @@ def observe_message(real: Real, case: dict, prescribed: list) -> list:
         fed = bytes(prescribed)
         trace.append(dict(ev='fed', bytes=list(fed), zok=True, inflated=[]))
 
+    # history before the case: the codec must not carry state from one message to the next, also not
+    # from a serialisation that failed half-way (an out-of-domain value further down the field list).
+    # These attempts are environment, not observations: whatever they do is ignored.
+    _poison(cls, q, case, pin)
     # encode
     msg = None
     try:
